@@ -136,6 +136,9 @@ func C12(c *core.Ctx) {
 	c.Count("goroutine_roots", len(roots))
 	c.Count("functions_reachable_from_goroutines", nfun)
 	c.Floor("C-shared/goroutine-roots", len(roots), 20)
+	ncl := checkNoCapturedWrites(c, "C-shared/goroutine-literals-assign-no-captured-variable", p)
+	c.Count("goroutine_literals", ncl)
+	c.Floor("C-shared/goroutine-literals", ncl, 10)
 }
 
 // checkNumCPU: runtime.NumCPU() flows only to channel capacities, loop bounds, WaitGroup.Add, GOMAXPROCS, comparisons.
@@ -476,7 +479,7 @@ func harnessAggregateVariants(c *core.Ctx, reverse bool) (string, error) {
 	return evalAggregateVariants(c, reverse, feed, -1, -1, false, 0, "ref")
 }
 
-func evalAggregateSNPs(c *core.Ctx, reverse bool, lines [][]string, thr float64) (string, error) {
+func evalAggregateSNPs(c *core.Ctx, reverse bool, lines [][]string, thr float64, names ...string) (string, error) {
 	fn := c.LookupFunc("pkg/snps", "aggregateWriteOutput")
 	if fn == nil {
 		return "", fmt.Errorf("UNRESOLVED snps.aggregateWriteOutput")
@@ -485,7 +488,11 @@ func evalAggregateSNPs(c *core.Ctx, reverse bool, lines [][]string, thr float64)
 	var feed []eval.Value
 	for i, l := range lines {
 		r := absValue(lt, "l", eval.K(0)).(*eval.StructVal)
-		r.F["queryname"] = eval.S(fmt.Sprintf("q%d", i))
+		name := fmt.Sprintf("q%d", i)
+		if i < len(names) {
+			name = names[i]
+		}
+		r.F["queryname"] = eval.S(name)
 		r.F["idx"] = eval.K(int64(i))
 		es := make([]eval.Value, len(l))
 		for k, s := range l {
